@@ -26,6 +26,8 @@ def gen(rng, tier):
         g = GC.gen_cfg(rng, max_vars=3, max_prods=6, max_body=3)
         if g["valmode"] in ("str", "V") and rng.chance(0.2):
             g.update(valmode=rng.pick(["mixed", "binint", "binint", "tup"]), hash=None, hashmode="plain")
+        if rng.chance(0.03):
+            g["no_start"] = True          # CFG(): no start symbol (what an empty intersection returns)
         # the automaton's symbols are the grammar's terminal values, also when those are ints and floats
         symmode = "V" if g["valmode"] == "V" else "cfg:" + g["valmode"] if g["valmode"] in GC.TERM_MAPS else "str"
         terms = g["terms"]
